@@ -201,6 +201,25 @@ CLAIMED = {
         "'# header (context)' comment of repr(pkt) is canonicalised away.",
         "6 (C16)",
     ),
+    "C15": (
+        "Coq proof (topology operations with the library's guards: structural invariant of every reachable state, nothing-moves and no-silent-move by induction over ANY request sequence; printed zone keys and zone count against the validator's regenerated regex and limits by a finite sweep lifted by lemma) + state-by-state correspondence on real entity objects + validator/reload/graph-walk oracle over histories and generated schemas",
+        "10 theorems in coq/props/C15.v about coq/model/M_Topology.v (= Child.set_parent/_get_parent, Parent._add_child, "
+        "MultiZone.get_htg_zone/Zone.__init__, get_dhw_zone): after ANY sequence of requests (any device type, parent, child id, role; "
+        "accepted or refused) zone indexes are below max_zones, each zone's sensor/actuators, the DHW parts and the appliance control "
+        "have that zone/DHW zone/system as their ONE parent and the parent's controller as theirs, hence a device is in at most one "
+        "zone/role-holder under one controller; a sensor, parent or controller once set never changes; a request that succeeds on a "
+        "placed device named its existing parent -- any other is answered with an error; for every max_zones the configuration "
+        "validator admits (range regenerated) every zone key matches the schema validator's key regex (regenerated, verified matcher) "
+        "and a controller's zones fit the validator's dict size limit (regenerated). PARTIAL: 'the reported schema validates' beyond "
+        "zone keys/count, 're-loading reproduces controllers/zones/DHW/appliance control' and how packets become set_parent requests "
+        "(000C/0005 handlers, eavesdropping, load_schema) are not theorems -- decided by the oracle. Tie: ~160 (thorough 600) random "
+        "sequences of 25 requests on real Device/Zone/System objects vs the model, the whole topology compared after each. Oracle: "
+        "derived histories (eavesdrop on/off, max_zones 1..16, whole or chunked): SCH_GLOBAL_SCHEMAS(shrink(schema)), graph walk, parents "
+        "tracked across points, reload into a fresh gateway; generated validator-accepted schemas loaded and printed back.",
+        "Trusted: Coq kernel, translator (SCH_ZON_IDX, SCH_TCS_ZONES length, max_zones range), harness. Modelled not verified: device "
+        "classes as 9 type tags with PARENT_RULES transcribed; zone class promotion and UFH circuits not modelled.",
+        "6 (C15)",
+    ),
 }
 
 NOT_YET = "not claimed yet: the Coq model and correspondence harness for this property are not built in this revision (planned in DESIGN.md section 6)"
